@@ -37,12 +37,14 @@ TIERS = {
               ("seq", ALL_LIVE, 2, 8, (6, 5))],
     "thorough": [("decoders", DECODERS, 1, 8, None), ("ice", LIVE_ICE, 1, 8, None), ("dtls", LIVE_DTLS, 1, 8, None),
                  ("sctp", LIVE_SCTP, 1, 8, None), ("pc", LIVE_PC, 1, 8, None), ("media", LIVE_MEDIA, 1, 4, None),
-                 ("seq", ALL_LIVE, 2, 8, (80, 6))],
+                 ("seq", ALL_LIVE, 2, 8, (40, 6))],
 }
 VARIANTS = {"quick": 2, "thorough": 6}
 
 OK_RES = {"value", "error"}
-SKIP_RES = {"inapplicable"}
+# inapplicable: the class has no concrete instance on the genuine message; unreachable: the history (an earlier input,
+# then genuine progress) does not exist on the implementation because the earlier input was acted upon
+SKIP_RES = {"inapplicable", "unreachable"}
 
 
 def tla_set(xs):
@@ -205,7 +207,7 @@ def run(tier):
         rows = execute(ck, label, grammar, cases, nshards, VARIANTS[tier])
         classify(ck, rows, case_rows, stats)
         if sim is None:
-            bfs_done = stats["executed"] + stats["by_res"].get("inapplicable", 0)
+            bfs_done = stats["executed"] + stats["by_res"].get("inapplicable", 0) + stats["by_res"].get("unreachable", 0)
     ck.cov["traces_validated_against_impl"] = stats["executed"]
     ck.cov["evaluations"] = sum(r.get("executions", 0) for r in [])
     ck.cov["evaluations"] = stats["executed"] * VARIANTS[tier]
